@@ -205,3 +205,57 @@ def reads_var(expr, var_text):
     if isinstance(n, ast.Subscript) and norm_text(n) == var_text:
       return True
   return False
+
+
+# ---------------------------------------------------------------------------
+def check_case_agreement(prog, res, modules, rule='V3c'):
+  """A string hyper-parameter that a validator accepts case-insensitively
+  (`x.lower() == 'lit'`) must be compared case-insensitively (or after
+  canonicalisation) wherever the same module dispatches on it: a raw
+  `x == 'lit'` makes an accepted spelling such as 'Valley' take the other
+  branch.  Families are keyed by (module, variable name, literal)."""
+  import ast as _ast
+  from ..model import dotted, norm_text
+  n = 0
+  for mname in modules:
+    mod = prog.module(mname)
+    fns = [f for f in mod.all_functions() if f.parent is None]
+    fam = {}
+    for f in fns:
+      for c in _ast.walk(f.node):
+        if isinstance(c, _ast.Compare) and len(c.ops) == 1 and isinstance(
+            c.ops[0], (_ast.Eq, _ast.NotEq)):
+          for a, b in ((c.left, c.comparators[0]), (c.comparators[0], c.left)):
+            if isinstance(a, _ast.Call) and isinstance(
+                a.func, _ast.Attribute) and a.func.attr == 'lower' and \
+                isinstance(b, _ast.Constant) and isinstance(b.value, str):
+              v = dotted(a.func.value)
+              if v:
+                fam.setdefault((v.split('.')[-1], b.value), f.qualname)
+    for f in fns:
+      idx = {}
+      for c in _ast.walk(f.node):
+        if isinstance(c, _ast.Compare) and len(c.ops) == 1 and isinstance(
+            c.ops[0], (_ast.Eq, _ast.NotEq)):
+          for a, b in ((c.left, c.comparators[0]), (c.comparators[0], c.left)):
+            v = dotted(a)
+            if v and isinstance(b, _ast.Constant) and isinstance(
+                b.value, str) and (v.split('.')[-1], b.value) in fam:
+              k = (v.split('.')[-1], b.value)
+              i = idx.get(k, 0)
+              idx[k] = i + 1
+              n += 1
+              res.violation(
+                  rule, '%s|%s==%s%s' % (f.qualname, k[0], k[1],
+                                         '#%d' % (i + 1) if i else ''),
+                  f.loc(c),
+                  '`%s` compares %s with %r case-sensitively although %s '
+                  'accepts it case-insensitively (.lower()): an accepted '
+                  'spelling such as %r silently takes the other branch' % (
+                      norm_text(c), k[0], k[1], fam[k], k[1].capitalize()))
+    for k, where in sorted(fam.items()):
+      n += 1
+      res.ok(rule, '%s|family:%s=%s' % (mname, k[0], k[1]), mod.name,
+             'validated case-insensitively in %s; no raw comparison in the '
+             'module' % where)
+  return n
